@@ -58,7 +58,11 @@ func cronStartupCheck(res *Result) {
 	time.Sleep(250 * time.Millisecond)
 	// the initial list arrives
 	rjc := &execution.JobConfig{ObjectMeta: metav1.ObjectMeta{Namespace: "ns", Name: "present-before-start", UID: "uid-present"}}
-	rjc.Spec.Schedule = &execution.ScheduleSpec{Cron: &execution.CronSchedule{Expression: "*/5 * * * *"}}
+	// a schedule with no due time anywhere near: the running worker leaves the heap alone while
+	// the check looks at it
+	rjc.Spec.Schedule = &execution.ScheduleSpec{Cron: &execution.CronSchedule{Expression: "0 0 29 2 *"}}
+	ls := metav1.NewTime(time.Now().Add(-2 * time.Minute))
+	rjc.Status.LastScheduled = &ls
 	sc.informers.JobConfigs.Set(rjc)
 	sc.informers.JobConfigs.SetSynced(true)
 	res.Count("startup-check")
@@ -69,13 +73,21 @@ func cronStartupCheck(res *Result) {
 			res.Hits = append(res.Hits, MonitorHit{"C01", "C01/controller-does-not-start", fmt.Sprint(err), js})
 		} else {
 			n := 0
-			if w := ctrl.VerifCronWorker(); w != nil && w.VerifSchedule() != nil {
-				names, _, _ := w.VerifSchedule().VerifDump()
-				n = len(names)
-			}
+			waitUntil(3*time.Second, func() bool {
+				n = 0
+				if w := ctrl.VerifCronWorker(); w != nil && w.VerifSchedule() != nil {
+					names, _, _ := w.VerifSchedule().VerifDump()
+					n = len(names)
+				}
+				return n == 1
+			})
 			if n != 1 {
 				res.Hits = append(res.Hits, MonitorHit{"C01", "C01/existing-jobconfig-not-scheduled-after-start",
 					fmt.Sprintf("Run has returned and the controller reports started; the schedule holds %d JobConfigs, the cache holds 1 with a cron schedule: its times are never requested", n), js})
+				// the same fact as C04 reads it: the JobConfig was last scheduled two minutes before the
+				// restart; its missed times are to be caught up and scheduling is to continue
+				res.Hits = append(res.Hits, MonitorHit{"C04", "C04/no-catch-up-after-restart",
+					fmt.Sprintf("restart with a JobConfig that has been scheduled before (status.lastScheduled two minutes back): Run has returned, the schedule holds %d JobConfigs: no catch-up, and no later time is ever requested", n), js})
 			}
 		}
 	case <-time.After(20 * time.Second):
